@@ -21,6 +21,13 @@
 (*   scribble  the CALLER mutates objects it owns and passed to the        *)
 (*           constructor (axes list, shift list, tmp_r / tmp_f arrays):    *)
 (*           the operator must not change                                  *)
+(* Call keywords: every call may name the documented FFTW planning effort   *)
+(* (field e of the action: "-" default, "estimate", "measure", "patient";   *)
+(* FourierTransform: planning_effort=, DiscreteFourierTransform: flags=).   *)
+(* The plan store is state of T (and of a kept T.inverse: planinv), so a    *)
+(* call with a measuring planner on a FRESH operator, after a first call    *)
+(* and after plan(e) are different histories - and none of it may change    *)
+(* a value: Post ignores e.                                                 *)
 (* T itself may be a derived operator (T0.inverse.inverse, ...): the option *)
 (* algebra of derivations is module DFTDerive.                              *)
 (***************************************************************************)
@@ -34,7 +41,8 @@ IsSpectrum(v) == v \in {"Fa", "Fb"}
 
 Heap0 == [o \in Objs |-> CASE o = "x1" -> "a" [] o = "x2" -> "b" [] o \in {"y", "z"} -> "nan" [] OTHER -> "none"]
 
-Act(op, x, o) == [op |-> op, x |-> x, o |-> o]
+ActE(op, x, o, e) == [op |-> op, x |-> x, o |-> o, e |-> e]
+Act(op, x, o) == ActE(op, x, o, "-")
 NoAct == Act("init", "-", "-")
 
 Enabled(h, A) ==
@@ -51,14 +59,21 @@ Post(h, A) ==
     [] A.op = "invip"  -> [h EXCEPT ![A.o] = Inv(h[A.x])]
     [] OTHER -> h
 
-Acts(h) ==
-  { A \in  {Act("call", x, "r") : x \in {"x1", "x2", "z", "r"}}
-      \cup {Act("callip", x, "y") : x \in {"x1", "x2", "z", "r"}}
-      \cup {Act("inv", x, "r") : x \in {"y", "r"}}
-      \cup {Act("invip", x, "z") : x \in {"y", "r"}}
-      \cup {Act("plan", "-", "-"), Act("temps", "-", "-"), Act("scribble", "-", "-")} : Enabled(h, A) }
+CONSTANTS MaxLen,
+          Efforts,   \* planning efforts named as call keywords (slim alphabet only)
+          Slim       \* TRUE: the call-keyword alphabet on x1 / y / r; FALSE: the full alphabet, default keywords
 
-CONSTANT MaxLen
+FullActs ==
+       {Act("call", x, "r") : x \in {"x1", "x2", "z", "r"}}
+  \cup {Act("callip", x, "y") : x \in {"x1", "x2", "z", "r"}}
+  \cup {Act("inv", x, "r") : x \in {"y", "r"}}
+  \cup {Act("invip", x, "z") : x \in {"y", "r"}}
+  \cup {Act("plan", "-", "-"), Act("temps", "-", "-"), Act("scribble", "-", "-")}
+SlimActs ==
+  UNION {{ActE("call", "x1", "r", e), ActE("callip", "x1", "y", e), ActE("inv", "r", "r", e),
+          ActE("invip", "y", "z", e), ActE("plan", "-", "-", e), ActE("planinv", "-", "-", e)} : e \in Efforts}
+Acts(h) == {A \in (IF Slim THEN SlimActs ELSE FullActs) : Enabled(h, A)}
+
 VARIABLES heap, hist       \* hist: the behaviour so far, << [act, heap after] >>
 vars == <<heap, hist>>
 Init == heap = Heap0 /\ hist = <<>>
